@@ -60,7 +60,8 @@ class PHooks(Hooks):
                 return [tuple(x) if isinstance(x, (tuple, list)) else (x, x)
                         for x in (v if length > 1 or not all(
                             isinstance(d, bool) for d in v) else [v])]
-            if f.name == 'normalized_index_expression':
+            if f.name == 'normalized_index_expression' and not getattr(
+                    self, 'interpret_index_normaliser', False):
                 idx, shape = args[0], args[1]
                 its = kwargs.get('int_to_slice', False)
                 if not isinstance(idx, (tuple, list)):
@@ -531,6 +532,16 @@ def _selection(rep, model):
                     cases.append(slice(i, j, st))
         cases.append(slice(None))
         cases.append(slice(None, None, 2))
+        # negative bounds, alone and mixed with non-negative ones
+        for i in list(range(0, n)) + [None] + list(range(-n, 0)):
+            for j in list(range(-n, 0)) + [None]:
+                if i is None and j is None:
+                    continue
+                for st in (None, 2):
+                    cases.append(slice(i, j, st))
+        for i in range(-n, 0):
+            for j in range(1, n + 1):
+                cases.append(slice(i, j))
         for i in range(n):
             for j in range(i, n):
                 cases.append([i, j] if i != j else [i])
@@ -538,6 +549,9 @@ def _selection(rep, model):
             count += 1
 
             class SH(GHooks):
+                # the index normaliser is interpreted, not summarised
+                interpret_index_normaliser = True
+
                 def on_getattr(self, interp, obj, name):
                     if isinstance(obj, Rec) and obj.kind == 'RectGrid' and \
                             name == '__getitem__':
@@ -562,7 +576,21 @@ def _selection(rep, model):
                               % (n, idx), str(e), PART, fn.lineno)
                 continue
             except PyRaise as e:
-                continue        # rejected index (empty slices etc.)
+                # rejecting an index is right for empty selections only
+                full = list(range(n))
+                try:
+                    nonempty = bool(full[idx]) if isinstance(idx, slice) \
+                        else True
+                    if isinstance(idx, int):
+                        full[idx]
+                    elif isinstance(idx, list):
+                        [full[i] for i in idx]
+                except IndexError:
+                    nonempty = False
+                if nonempty:
+                    bad = (n, idx, 'raises %s' % e.name, None, None, None)
+                    break
+                continue
             if res is None:
                 continue
             sel = list(range(n))
@@ -586,7 +614,13 @@ def _selection(rep, model):
                 break
         if bad:
             break
-    if bad:
+    if bad and bad[3] is None:
+        rep.violation(
+            'R3b', 'RectPartition.__getitem__',
+            'partition with %d cells indexed with %r: %s although the '
+            'selection is not empty' % (bad[0], bad[1], bad[2]), PART,
+            fn.lineno)
+    elif bad:
         n, idx, lo_, hi_, wl, wh = bad
         rep.violation(
             'R3b', 'RectPartition.__getitem__',
